@@ -35,7 +35,7 @@ KEYS = (b"r1", b"r2", b"r3", b"d2", b"c0", b"c1", b"ghost")
 
 FULL = ("commit", "commit-co", "pull-src", "pull-div", "pull-div-ow", "push-src", "push-div-ow", "fetch-r3",
         "set-tag", "del-tag", "set-opt", "set-tip", "lock", "unlock", "reopen", "obs", "oth-pull")
-CORE = ("commit", "pull-src", "pull-div-ow", "set-tag", "del-tag", "lock", "unlock", "obs")
+CORE = ("commit", "pull-src", "pull-div-ow", "push-src", "set-tag", "del-tag", "set-opt", "lock", "unlock", "obs")
 
 # ---- template histories --------------------------------------------------------------------------
 _TEMPLATES = {}
@@ -516,10 +516,20 @@ def run(ctx):
         "rule": "a case = (template history, operation sequence), run on 3 sides; non-trivial = the sequence "
                 "changed the logical content of the store (some branch/repository/lock field differs from the template)",
         "distinct_step_outcomes": len(acc.outcomes),
+        "cpu_s": _cpu_seconds(),
         "bounds": bounds,
         "samples": acc.samples[:4],
         "exhaustive": True,
     }
+
+
+def _cpu_seconds():
+    import resource
+    t = 0.0
+    for who in (resource.RUSAGE_SELF, resource.RUSAGE_CHILDREN):
+        r = resource.getrusage(who)
+        t += r.ru_utime + r.ru_stime
+    return round(t, 1)
 
 
 def replay(ctx, data):
